@@ -114,6 +114,9 @@ def watch_identity(ctx, RI, P) -> None:
     ow = P.cls("ObservedWatch")
     for m in ("__eq__", "__ne__", "__hash__"):
         mf = ow.methods.get(m)
+        if mf is None and m == "__ne__":
+            ctx.ok(RI, "ObservedWatch.__ne__ (derived from __eq__ by the language)", ow.loc)
+            continue
         if mf is None:
             ctx.viol(RI, f"ObservedWatch.{m}", "identity method missing (object identity would be used)", ow.loc)
             continue
@@ -128,31 +131,44 @@ def watch_identity(ctx, RI, P) -> None:
     kf = ow.methods.get("key")
     if kf is None:
         raise AnalysisError("anchor vanished: ObservedWatch.key")
-    ret = [n.value for n in ast.walk(kf.node) if isinstance(n, ast.Return)]
-    comps = []
-    if ret and isinstance(ret[0], ast.Tuple):
-        for el in ret[0].elts:
-            d = dotted(el) or ast.unparse(el)
-            # resolve property -> backing field
-            name = d.split(".")[-1]
-            pf = ow.methods.get(name)
-            if pf is not None:
-                r2 = [n.value for n in ast.walk(pf.node) if isinstance(n, ast.Return)]
-                if r2:
-                    name = (dotted(r2[0]) or "").split(".")[-1]
-            comps.append(name)
+    from ..watchpath import NORMALISERS, fields_of, key_path_component
+
+    kpc = key_path_component(P)
+    comps, odd = [], []
+    for el in kpc["elts"]:
+        for b, wr in sorted(fields_of(P, "ObservedWatch", kf.node, el)):
+            comps.append(b[5:] if b.startswith("self.") else b)
+            if wr and not (b == "self._path" and all(w in NORMALISERS for w in wr)):
+                odd.append(f"{'('.join(reversed(wr))}({b})")
     want = {"_path", "_is_recursive", "_event_filter"}
-    ctx.check(set(comps) == want and len(comps) == 3, RI, "ObservedWatch.key", f"key is built from {comps}; the property's watch identity is (path, recursive flag, filter)", kf.loc)
+    ctx.check(set(comps) == want and len(comps) == 3 and not odd, RI, "ObservedWatch.key", f"key is built from {comps}{' through ' + ', '.join(odd) if odd else ''}; the property's watch identity is (path, recursive flag, filter)", kf.loc)
+    ctx.check(
+        kpc["normalised"] or not kpc["only_field"],
+        RI,
+        "ObservedWatch.key carries the normalised path",
+        f"the key reads {kpc['as_written']} while the path is stored as given and only normalised when read through `path` ({kpc['model']['stored_cases']}): pathlib.Path('/d') and '/d' -- the same path, flag and filter -- are two watches, each with its own emitter and handler set",
+        kf.loc,
+    )
 
     # the filter as stored: decided by `is None`, never by truthiness (an empty filter selects nothing; it is not "no filter")
     from ..pse import Cfg
+
+    class _FCfg(Cfg):
+        """module-level helper functions of the module are followed (the normalisation shared by the watch and the emitter may be one)"""
+
+        def inline(self, call, ft, rc, st):
+            if isinstance(call.func, ast.Name) and st.module is not None and call.func.id in getattr(st.module, "functions", {}) and call.func.id not in st.env:
+                fi_ = st.module.functions[call.func.id]
+                if not any(isinstance(n, (ast.Yield, ast.YieldFrom)) for n in ast.walk(fi_.node)):
+                    return fi_, st.selfcls, None
+            return None
 
     for cname in ("ObservedWatch", "EventEmitter"):
         ini = P.find_method(cname, "__init__")
         if ini is None:
             raise AnalysisError(f"anchor vanished: {cname}.__init__")
         okf, why, seenf = True, "", set()
-        for p in Enumerator(Cfg(P)).run(ini, selfcls=cname):
+        for p in Enumerator(_FCfg(P)).run(ini, selfcls=cname):
             st = [e for e in p.evs if e.kind == "store" and e.extra.get("attr") == "_event_filter"]
             if len(st) != 1:
                 okf, why = False, "the filter is not stored exactly once"
@@ -249,6 +265,9 @@ def run(ctx) -> None:
             sig = {c for c, k, e in net(registry_effects(p.evs))}
             # what this call must achieve on this path
             conds = p.conds()
+            hp_ = ([a.arg for a in mfi.node.args.args if a.arg != "self"] or [""])[0]
+            if mname in ("schedule", "add_handler_for_watch") and "h" not in sig and any(t is True and re.fullmatch(rf"{re.escape(hp_)} in self\._handlers(\[.*\]|\.get\(.*\)|\.setdefault\(.*\))", a) for a, t in conds.items()):
+                sig = sig | {"h"}  # found there by a membership test (a registry of sequences de-duplicates that way): the handler is registered
             new_watch = any(absent_in_emitter_map(a, t) for a, t in conds.items())
             required = {
                 "schedule": ({"h", "E", "M", "W"} if new_watch else {"h", "W"}),
@@ -332,6 +351,8 @@ def run(ctx) -> None:
 
 API = "observers/api.py"
 VARIANTS = [
+    dict(name="E path normalised when read (os.fspath in the getter), key through the property", expect="silent", edits=[(API, "import contextlib\n", "import contextlib\nimport os\n"), (API, "        self._path = str(path) if isinstance(path, Path) else path\n", "        self._path = path\n"), (API, '        """The path that this watch monitors."""\n        return self._path\n', '        """The path that this watch monitors."""\n        return os.fspath(self._path)\n')]),
+    dict(name="B path normalised when read, key built from the raw field", expect="fire", rule="C13/watch-identity", edits=[(API, "import contextlib\n", "import contextlib\nimport os\n"), (API, "        self._path = str(path) if isinstance(path, Path) else path\n", "        self._path = path\n"), (API, '        """The path that this watch monitors."""\n        return self._path\n', '        """The path that this watch monitors."""\n        return os.fspath(self._path)\n')] + [(API, "        return self.path, self.is_recursive, self.event_filter", "        return self._path, self._is_recursive, self._event_filter")]),
     dict(name="B handler registered before the emitter exists", expect="fire", rule="C13/failed-call-atomicity", edits=[(API, "            watch = ObservedWatch(path, recursive=recursive, event_filter=event_filter, follow_symlink=follow_symlink)\n", "            watch = ObservedWatch(path, recursive=recursive, event_filter=event_filter, follow_symlink=follow_symlink)\n            self._add_handler_for_watch(event_handler, watch)\n")]),
     dict(name="B handler registered between construction and start", expect="fire", rule="C13/failed-call-atomicity", edits=[(API, "                if self.is_alive():\n                    emitter.start()\n                self._add_emitter(emitter)", "                self._add_handler_for_watch(event_handler, watch)\n                if self.is_alive():\n                    emitter.start()\n                self._add_emitter(emitter)")]),
     dict(name="B emitter registered before start", expect="fire", rule="C13/failed-call-atomicity", edits=[(API, "                if self.is_alive():\n                    emitter.start()\n                self._add_emitter(emitter)", "                self._add_emitter(emitter)\n                if self.is_alive():\n                    emitter.start()")]),
